@@ -595,11 +595,57 @@ func Exits(fn *ssa.Function) []Exit {
 		}
 		e := Exit{Ret: r}
 		for _, v := range r.Results {
-			e.Vals = append(e.Vals, resolveSpill(r, v))
+			e.Vals = append(e.Vals, knownNil(fn, r, resolveSpill(r, v)))
 		}
 		out = append(out, e)
 	}
 	return out
+}
+
+var exitFacts = map[*ssa.Function]*Facts{}
+
+// knownNil: a named result returned by a bare `return` is whatever was last assigned to it; when that is nil on
+// every way in (a φ of nils), or is a value the branch just taken has tested to be nil (`if err = f(); err != nil
+// { return }; ...; return`), the exit returns nil just as an explicit `return nil` does.
+func knownNil(fn *ssa.Function, r *ssa.Return, v ssa.Value) ssa.Value {
+	if v == nil || IsNil(v) {
+		return v
+	}
+	switch v.Type().Underlying().(type) {
+	case *types.Interface, *types.Pointer, *types.Map, *types.Slice, *types.Chan, *types.Signature:
+	default:
+		return v
+	}
+	if _, isPhi := v.(*ssa.Phi); isPhi {
+		all := true
+		for _, l := range PhiLeaves(v) {
+			if !IsNil(l) {
+				all = false
+			}
+		}
+		if all {
+			return ssa.NewConst(nil, v.Type())
+		}
+	}
+	f := exitFacts[fn]
+	if f == nil {
+		f = NewFacts(fn)
+		exitFacts[fn] = f
+	}
+	leaves := PhiLeaves(v)
+	if len(leaves) == 0 {
+		return v
+	}
+	for _, l := range leaves {
+		if IsNil(l) {
+			continue
+		}
+		l := l
+		if !f.Holds(r.Block(), func(ft Fact) bool { return CmpNil(ft, true, func(x ssa.Value) bool { return x == l }) }) {
+			return v
+		}
+	}
+	return ssa.NewConst(nil, v.Type())
 }
 
 func resolveSpill(r *ssa.Return, v ssa.Value) ssa.Value {
@@ -611,23 +657,76 @@ func resolveSpill(r *ssa.Return, v ssa.Value) ssa.Value {
 	if !ok {
 		return v
 	}
-	b := r.Block()
-	for i := len(b.Instrs) - 1; i >= 0; i-- {
-		if s, ok := b.Instrs[i].(*ssa.Store); ok && s.Addr == a {
-			return s.Val
+	// the cell must be a plain result variable: only stored to and loaded from
+	for _, ref := range *a.Referrers() {
+		switch x := ref.(type) {
+		case *ssa.Store:
+			if x.Addr != ssa.Value(a) {
+				return v
+			}
+		case *ssa.UnOp:
+		case *ssa.DebugRef:
+		default:
+			return v
 		}
 	}
-	// store may be in the unique predecessor chain (jump-only blocks)
-	cur := b
-	for len(cur.Preds) == 1 {
-		cur = cur.Preds[0]
-		for i := len(cur.Instrs) - 1; i >= 0; i-- {
-			if s, ok := cur.Instrs[i].(*ssa.Store); ok && s.Addr == a {
-				return s.Val
+	// the stores that reach this return: backwards over the CFG, stopping at the latest store on each path
+	var vals []ssa.Value
+	zero := false
+	seen := map[*ssa.BasicBlock]bool{}
+	var back func(b *ssa.BasicBlock, from int)
+	back = func(b *ssa.BasicBlock, from int) {
+		for i := from; i >= 0; i-- {
+			if s, ok := b.Instrs[i].(*ssa.Store); ok && s.Addr == ssa.Value(a) {
+				vals = append(vals, s.Val)
+				return
+			}
+			if b.Instrs[i] == ssa.Instruction(a) {
+				zero = true
+				return
+			}
+		}
+		if len(b.Preds) == 0 {
+			zero = true
+			return
+		}
+		for _, p := range b.Preds {
+			if !seen[p] {
+				seen[p] = true
+				back(p, len(p.Instrs)-1)
 			}
 		}
 	}
+	b := r.Block()
+	back(b, len(b.Instrs)-1)
+	uniq := map[ssa.Value]bool{}
+	for _, x := range vals {
+		uniq[x] = true
+	}
+	switch {
+	case len(uniq) == 0 && zero:
+		return zeroConst(v.Type())
+	case len(uniq) == 1 && !zero:
+		return vals[0]
+	case len(uniq) == 1 && zero && IsZero(vals[0]):
+		return vals[0]
+	}
 	return v
+}
+
+func zeroConst(t types.Type) ssa.Value {
+	switch u := t.Underlying().(type) {
+	case *types.Basic:
+		switch {
+		case u.Info()&types.IsBoolean != 0:
+			return ssa.NewConst(constant.MakeBool(false), t)
+		case u.Info()&types.IsString != 0:
+			return ssa.NewConst(constant.MakeString(""), t)
+		case u.Info()&types.IsNumeric != 0:
+			return ssa.NewConst(constant.MakeInt64(0), t)
+		}
+	}
+	return ssa.NewConst(nil, t)
 }
 
 func reachableBlocks(fn *ssa.Function) map[*ssa.BasicBlock]bool {
